@@ -131,6 +131,12 @@ class KernelSim(WorldBase):
                 evs.append(["session", s])
             evs.append(["session", dict(target, role="target", ncu=g.choice(THRESHOLDS))])
             if g.random() < 0.4:
+                kinds = ["add_bb", "add_bs", "add_sb", "mul_bb", "mul_bs", "mul_sb", "iadd_b", "iadd_s", "imul_b", "imul_s",
+                         "set_b", "set_s"]
+                evs.append(["payops", {"init": [g.choice([0, 0, 1, 2, -1, 3]) for _ in range(g.randint(2, 4))],
+                                       "ops": [[g.choice(kinds), g.randrange(8), g.randrange(8), g.randrange(8),
+                                                g.choice([0, 0, 1, 2, -2])] for _ in range(g.randint(1, 12))]}])
+            if g.random() < 0.4:
                 # tiles arrive in increasing coordinate order (what the position shortcut assumes)
                 S = g.randint(6, 40)
                 cs = sorted(g.sample(range(S), g.randint(2, min(S, 12))))
@@ -172,11 +178,19 @@ class KernelSim(WorldBase):
                 if g.random() < 0.5:
                     lo = g.randint(0, Kk + off)
                     iv = [lo, g.randint(lo + 1, Kk + off + 2)]
-                idiom = g.choice([1, 2])
+                idiom = g.choice([1, 2, 3])
+                dense_outer = False
                 sp = g.choice([None, 0, 1]) if (idiom == 1 and iv is None) else None
+                if idiom == 3:
+                    # a traced plain walk resumed at a position (optionally over a coordinate range)
+                    sp = g.choice([0, 1, 1, 2])
+                    iv = [g.randint(0, Kk), Kk + 1] if g.random() < 0.4 else None
+                    dense_outer = g.random() < 0.4
+                    if dense_outer:
+                        sp = g.choice([None, 0])
                 for t in (2, 1000, g.choice(THRESHOLDS)):
                     evs.append(["proj", {"dims": [B, Kk], "ent": ent, "off": off, "interval": iv, "idiom": idiom,
-                                         "start_pos": sp, "ncu": t}])
+                                         "start_pos": sp, "ncu": t, "dense_outer": idiom == 3 and dense_outer}])
             if False and g.random() < 0.5:
                 # convolution by projection: project_i traces, matched ranks.  DISABLED: under collection the
                 # library needs the source rank matched to the destination rank *before* the destination rank is
@@ -320,6 +334,8 @@ class KernelSim(WorldBase):
                 return self.ev_tilepop(ev[1])
             if kind == "proj":
                 return self.ev_proj(ev[1])
+            if kind == "payops":
+                return self.ev_payops(ev[1])
             if kind == "swaps":
                 return self.ev_swaps(ev[1])
             if self.case is None:
@@ -530,6 +546,12 @@ class KernelSim(WorldBase):
             self._judge_exact(s, out, counts)
         elif role == "target":
             self._judge_target(s, out, counts)
+        elif role == "history" and not (s.get("abort_at") or s.get("fail_at") or s.get("break_at")) \
+                and s.get("end", "normal") == "normal" and not fired:
+            # an undisturbed earlier session is a session like any other: exact counts, whatever ran before it
+            # (its trace files are read here, as a user would between two sessions)
+            self._judge_exact(s, out, counts)
+            self.probe("history_session_judged")
         self._operands_unchanged("session")
         return res
 
@@ -602,6 +624,82 @@ class KernelSim(WorldBase):
                        f"{'missing' if b is None else str(len(b.splitlines())) + ' lines'}")
             if self.nsess > 3:
                 self.probe("target_after_history")
+
+    # ---- C15: every counted payload operator, all operand spellings, zero and non-zero values
+    def ev_payops(self, a):
+        """a straight-line program over a few boxes: + and * in the three spellings (box.box, box.scalar, scalar.box),
+        +=, *=, <<= ; run with collection off and on: same values, and mul/add/update counts equal to what ran
+        (one mul per *, one add per +, += is one update plus one add unless the old value was zero, *= is one mul
+        and one update, <<= is one update)"""
+        def run():
+            boxes = [Payload(v) for v in a["init"]]
+            want = [0, 0, 0]      # mul, update, add
+            for op, i, j, k, sc in a["ops"]:
+                x, y = boxes[i % len(boxes)], boxes[j % len(boxes)]
+                tgt = k % len(boxes)
+                if op == "add_bb":
+                    boxes[tgt] = x + y
+                    want[2] += 1
+                elif op == "add_bs":
+                    boxes[tgt] = x + sc
+                    want[2] += 1
+                elif op == "add_sb":
+                    boxes[tgt] = sc + y
+                    want[2] += 1
+                elif op == "mul_bb":
+                    boxes[tgt] = x * y
+                    want[0] += 1
+                elif op == "mul_bs":
+                    boxes[tgt] = x * sc
+                    want[0] += 1
+                elif op == "mul_sb":
+                    boxes[tgt] = sc * y
+                    want[0] += 1
+                elif op in ("iadd_b", "iadd_s"):
+                    old = x.value
+                    x += (y if op == "iadd_b" and y is not x else sc)
+                    want[1] += 1
+                    if old != 0:
+                        want[2] += 1
+                elif op in ("imul_b", "imul_s"):
+                    x *= (y if op == "imul_b" and y is not x else sc)
+                    want[0] += 1
+                    want[1] += 1
+                elif op in ("set_b", "set_s"):
+                    x <<= (y if op == "set_b" and y is not x else sc)
+                    want[1] += 1
+            return [b.value for b in boxes], want
+        off_vals, want = run()
+        self.nsess += 1
+        self.kexec += 1
+        dump = None
+        err = None
+        try:
+            Metrics.beginCollect(os.path.join(self.scratch, f"po{self.nsess}"))
+            on_vals, _ = run()
+            dump = copy.deepcopy(Metrics.dump())
+        except Exception as e:
+            err = f"{type(e).__name__}: {str(e)[:60]}"
+        finally:
+            try:
+                Metrics.endCollect()
+            except Exception:
+                pass
+        self.probe("payops")
+        if err:
+            self.V("C15", "C15.transparent", "payops", f"the payload program raised {err} under collection")
+            return {}
+        if on_vals != off_vals:
+            self.V("C15", "C15.transparent", "payops", f"values with collection on {on_vals} differ from off {off_vals}")
+        try:
+            got = [Compute.numOps(dump, op) for op in ("mul", "update", "add")]
+        except Exception as e:
+            self.V("C15", "C15.op-counts", "payops", f"Compute.numOps raised {type(e).__name__}")
+            return {}
+        if got != want:
+            self.V("C15", "C15.op-counts", "payops",
+                   f"Metrics reports mul/update/add = {got}, the program executed {want}: init {a['init']}, ops {a['ops']}")
+        return {"n": len(a["ops"])}
 
     # ---- C15: an output updated tile by tile with the documented position shortcut
     TILE_TRACES = ["iter", "populate_read_0", "populate_write_0", "populate_1"]
@@ -942,6 +1040,8 @@ class KernelSim(WorldBase):
         fs = self.fs
         fs.reset_counters()
         prefix = os.path.join(self.scratch, "pj")
+        if idiom == 3:
+            return self._ev_spiter(a, A, a_b, prefix)
         inner = "M" if idiom == 1 else "K"
         exp_proj, exp_outer, exp_inner = [], [], []
         got_seq, want_seq = [], []
@@ -1040,6 +1140,79 @@ class KernelSim(WorldBase):
         check(f"pj-{inner}-iter.csv", ["B_pos", inner + "_pos", "B", inner, "fiber_pos"], exp_inner)
         check("pj-K-project_0.csv", ["B_pos", inner + "_pos", "B", inner, "fiber_pos"], exp_proj, lag=(idiom == 2))
         return {"rows": len(exp_proj)}
+
+    def _ev_spiter(self, a, A, a_b, prefix):
+        """idiom 3: a traced plain walk that resumes at a position: a_k.__iter__(start_pos=sp) or
+        a_k.iterRange(lo, hi, start_pos=sp); iter rows carry the element's real position"""
+        sp = a.get("start_pos")
+        rng = tuple(a["interval"]) if a.get("interval") else None
+        fs = self.fs
+        exp_outer, exp_inner = [], []
+        err = None
+        Metrics.beginCollect(prefix)
+        try:
+            Metrics.setNumCachedUses(a["ncu"])
+            Metrics.trace("B", "iter")
+            Metrics.trace("K", "iter")
+            pb = 0
+            dense = bool(a.get("dense_outer"))
+            # (a dense, element-creating walk of the outer rank - the form used for uncompressed output ranks - writes
+            #  no iter rows of its own on the pinned tree; only the rows of the rank below it are judged)
+            outer_it = a_b.iterShapeRef() if dense else a_b
+            for b, a_k in outer_it:
+                if not dense:
+                    exp_outer.append([pb, b, a_b.coords.index(b)])
+                if dense and sp is not None and len(a_k.coords) <= sp:
+                    pb += 1
+                    continue
+                j = 0
+                for pos in range(sp or 0, len(a_k.coords)):
+                    k, pl = a_k.coords[pos], a_k.payloads[pos]
+                    if rng is not None and k >= rng[1]:
+                        break
+                    if Payload.get(pl) == 0 or (rng is not None and k < rng[0]):
+                        continue
+                    exp_inner.append([pb, j, b, k, pos])
+                    j += 1
+                it = a_k.iterRange(rng[0], rng[1], start_pos=sp) if rng is not None else a_k.__iter__(start_pos=sp)
+                n = 0
+                for k, pl in it:
+                    n += 1
+                if n != j:
+                    self.probe("spiter_sequence_differs")
+                    err = "sequence"
+                pb += 1
+        except Exception as e:
+            err = f"{type(e).__name__}: {str(e)[:80]}"
+        try:
+            Metrics.endCollect()
+        except Exception as e:
+            err = err or f"endCollect {type(e).__name__}"
+        if self.prop != "C16" or err == "sequence":
+            return {"err": err}
+        if err:
+            self.V("C16", "C16.no-exception", "proj", f"traced walk from a start position raised {err} ({a})")
+            return {"err": err}
+        self.probe("proj_checked:idiom3")
+        for name, header, want in (("pj-B-iter.csv", ["B_pos", "B", "fiber_pos"], exp_outer),
+                                   ("pj-K-iter.csv", ["B_pos", "K_pos", "B", "K", "fiber_pos"], exp_inner)):
+            if a.get("dense_outer") and name == "pj-B-iter.csv":
+                continue
+            path = os.path.join(self.scratch, name)
+            text = open(path).read() if os.path.exists(path) else None
+            if text is None:
+                self.V("C16", "C16.header", "proj", f"no trace file {name}")
+                continue
+            h, rows = TR.parse(text)
+            if not want and not rows:
+                continue
+            if h != header or rows != want:
+                i = next((i for i, (r, w) in enumerate(zip(rows, want)) if r != w), min(len(rows), len(want)))
+                self.V("C16", "C16.rows", "proj",
+                       f"trace {name} (walk from start_pos {sp}, range {rng}): header {h}, {len(rows)} rows, expected {len(want)}; "
+                       f"first difference at row {i}: got {rows[i] if i < len(rows) else None}, expected "
+                       f"{want[i] if i < len(want) else None}; fibers {[f.coords for f in a_b.payloads]}")
+        return {"rows": len(exp_inner)}
 
     def ev_conv(self, a):
         """O[q] = sum_r W[r] * I[q + r], weight stationary, input projected onto the output rank"""
